@@ -257,13 +257,15 @@ C05_Rule ==
 C05_OppositeAtEnd == (ev.ev = "DrainEnd" /\ CanConverge(ev.pre)) => cur["A"].role # cur["B"].role
 \* ---------------------------------------------------------------- C06
 C06_UniqueIds == \A a \in Agents : \A i, j \in 1..Len(cur[a].pairs) : i # j => cur[a].pairs[i].id # cur[a].pairs[j].id
+\* a pair is a (local candidate, remote candidate) pair: two remote candidates may share a transport address and differ in type
 C06_NoDupPairs == \A a \in Agents : \A i, j \in 1..Len(cur[a].pairs) : i # j =>
-                      <<cur[a].pairs[i].l, cur[a].pairs[i].r>> # <<cur[a].pairs[j].l, cur[a].pairs[j].r>>
+                      <<cur[a].pairs[i].l, cur[a].pairs[i].r, cur[a].pairs[i].rt>> # <<cur[a].pairs[j].l, cur[a].pairs[j].r, cur[a].pairs[j].rt>>
 C06_PairsFromCurrent == \A a \in Agents : \A p \in Rng(cur[a].pairs) : p.l \in Rng(cur[a].locals) /\ Known(cur, a, p.r)
 \* "the selected pair is one of the listed pairs": by id, and it is the listed entry itself (not a superseded copy that kept the id)
 C06_SelListed == \A a \in Agents : cur[a].sel # 0 => (cur[a].selListed /\ \E p \in Rng(cur[a].pairs) : p.id = cur[a].sel)
 C06_IdStable == \A a \in Agents : \A x, y \in idmap[a] : (x[1] = y[1] /\ x[2] = y[2]) => x = y
-C06_RemotesDeduped == \A a \in Agents : \A i, j \in 1..Len(cur[a].remotes) : i # j => cur[a].remotes[i].addr # cur[a].remotes[j].addr
+C06_RemotesDeduped == \A a \in Agents : \A i, j \in 1..Len(cur[a].remotes) : i # j =>
+                         <<cur[a].remotes[i].addr, cur[a].remotes[i].typ>> # <<cur[a].remotes[j].addr, cur[a].remotes[j].typ>>
 \* remote candidates never include addresses rejected by the remote IP filter (peer-reflexive discoveries included) nor TCP-active
 \* candidates; a check from a rejected source changes nothing and is not answered
 C06_RemoteFilter == /\ \A a \in Agents : /\ \A r \in Rng(cur[a].remotes) : r.addr \notin RFilter[a]
